@@ -843,7 +843,7 @@ pub fn drive(args: &[String]) {
     let with_fail = arg_num(args, "--fail", 1) == 1;
     let start = arg_num(args, "--start-case", 0) as usize;
     let append = arg_num(args, "--append", 0) == 1;
-    let mut w = TraceWriter::open(out, append, 3000);
+    let mut w = TraceWriter::open(out, append, 15_000);
     for c in start..cases {
         let mut rng = Rng::new(seed.wrapping_mul(1_000_003).wrapping_add(c as u64));
         let cap = rng.below(maxcap + 1);
